@@ -348,26 +348,33 @@ fn launch_rdp_thread<S: 'static + Read + Write + Send>(
     Ok(thread::spawn(move || {
         while wait_for_fd(handle as usize) && sync.load(Ordering::Relaxed) {
             let mut guard = rdp_client.lock().unwrap();
-            // Any error ends the session : a protocol error as well as
-            // a closed or reset connection (polling a dead socket again would spin forever)
-            if let Err(error) = guard.read(|event| {
-                match event {
-                    RdpEvent::Bitmap(bitmap) => {
-                        bitmap_channel.send(bitmap).unwrap();
-                    },
-                    _ => println!("{}: ignore event", APPLICATION_NAME)
-                }
-            }) {
-                match error {
-                    Error::RdpError(e) => match e.kind() {
-                        RdpErrorKind::Disconnect => {
-                            println!("{}: Server ask for disconnect", APPLICATION_NAME);
+            // One TLS record may carry several PDU : once the record is read the socket
+            // is not readable anymore, so read until the TLS layer is empty
+            loop {
+                // Any error ends the session : a protocol error as well as
+                // a closed or reset connection (polling a dead socket again would spin forever)
+                if let Err(error) = guard.read(|event| {
+                    match event {
+                        RdpEvent::Bitmap(bitmap) => {
+                            bitmap_channel.send(bitmap).unwrap();
                         },
-                        _ => println!("{}: {:?}", APPLICATION_NAME, e)
-                    },
-                    e => println!("{}: {:?}", APPLICATION_NAME, e)
+                        _ => println!("{}: ignore event", APPLICATION_NAME)
+                    }
+                }) {
+                    match error {
+                        Error::RdpError(e) => match e.kind() {
+                            RdpErrorKind::Disconnect => {
+                                println!("{}: Server ask for disconnect", APPLICATION_NAME);
+                            },
+                            _ => println!("{}: {:?}", APPLICATION_NAME, e)
+                        },
+                        e => println!("{}: {:?}", APPLICATION_NAME, e)
+                    }
+                    return;
                 }
-                break;
+                if !guard.has_buffered_data() {
+                    break;
+                }
             }
         }
     }))
